@@ -173,13 +173,25 @@ def check_case(ctx, case):
         rel = 1e-7 if t == "translate" else 1e-9
         wit = {"base": base, "transform": t, "transformed": tc}
         mode = ("ne-on" if src["cfg"]["non_emitting"] else "ne-off") + (":width" if src["cfg"]["width"] else "")
+        def report(kind, text):
+            # fault localisation: where do the two lattices diverge first, and is that an exact tie resolved by listing order
+            # inside one of the two order-dependent search heuristics (recorded findings), or something else?
+            mech = None
+            if t in ("rename_str", "rename_reverse", "reorder"):
+                div = oracles.first_lattice_divergence(mt0, mt1, keymap=lambda key: [ren.get(x, x) if j < len(key) - 2 else x for j, x in enumerate(key)])
+                mech = oracles.order_dependence_mechanism(src["cfg"], div)
+                text += f" | first lattice divergence: {div}"
+            if mech:
+                ctx.violation(f"C16:order-dependent:{mech}", wit, f"{t}: {kind}: {text}")
+            else:
+                ctx.violation(f"C16:{tt}:{kind}:{fam}:{mode}", wit, f"{t}: {text}")
         if c0["empty"] != c1["empty"] or c0["idx"] != c1["idx"]:
-            ctx.violation(f"C16:{tt}:index-differs:{fam}:{mode}", wit, f"{t}: base idx {c0['idx']} empty {c0['empty']}; transformed idx {c1['idx']} empty {c1['empty']}")
+            report("index-differs", f"base idx {c0['idx']} empty {c0['empty']}; transformed idx {c1['idx']} empty {c1['empty']}")
             continue
         if c0["empty"]:
             continue
         if not oracles.close(c0["best"], c1["best"], rel):
-            ctx.violation(f"C16:{tt}:best-probability-differs:{fam}:{mode}", wit, f"{t}: base {c0['best']!r}, transformed {c1['best']!r}")
+            report("best-probability-differs", f"base {c0['best']!r}, transformed {c1['best']!r}")
             continue
         if image(c0["path"], ren) == [k for k, _ in c1["path"]]:
             ctx.count("paths_image_identical")
@@ -189,7 +201,7 @@ def check_case(ctx, case):
             if oracles.tie_induced(img, c1["path"], tol=(1e-7 if t == "translate" else 1e-12)):
                 ctx.count("paths_differ_exact_tie")
             else:
-                ctx.violation(f"C16:{tt}:path-differs-without-tie:{fam}:{mode}", wit, f"{t}: base path total {p0!r}, transformed {p1!r}")
+                report("path-differs-without-tie", f"base path total {p0!r}, transformed {p1!r}")
     ctx.sample(base)
 
 
